@@ -11,6 +11,9 @@ RULE = ('corpus; exhaustive scope: all 65536 boolean 4x4 images x {4,8}-neighbou
         'seeded slice, as block cases); random 1-3 D arrays x bool/int/float dtypes (both signs, -0.0) x 7 layouts x '
         'elements None/4/8/6/box/arbitrary 3^d/other odd and even shapes/larger than the image/empty, with and '
         'without an int32 out= buffer. Labels are compared exactly with the Lean specification (no canonicalisation). '
+        'Size-threshold stream: images whose number of components, component size or row length crosses 2^15 / 2^16 '
+        '(two-pixel dominoes on 600x700: 70 200 components; checkerboard 363x363 with the cross: 65 885), judged with an exact Python union-find oracle whose '
+        'agreement with the Lean specification is checked on every small random case of the run. '
         '2 % of the random images have a zero-length axis. Non-trivial = at least two foreground pixels and one background pixel or >= 2 components; '
         'distinct = distinct (shape, binarised data, element).')
 ASSUMPTIONS = ['no NaN pixels (NaN != 0 is true in numpy, nothing else is assumed about it)',
@@ -43,6 +46,85 @@ def _bc_arg(case):
     return bc, [3] * nd, el
 
 
+def _oracle(shape, bits, bshape, el):
+    """exact O(N * |Bc|) oracle for the size-threshold stream (the Lean driver works on lists: too slow beyond ~10^4
+    pixels): union-find over the pairs (p, p + k) of non-zero pixels inside the image, k an offset `j - bshape//2` of a
+    non-zero entry of the element; labels = order of first appearance of the component in C scan order. Its agreement
+    with the Lean specification is established on every small random case of the run (Infra error on disagreement)."""
+    shape = tuple(shape)
+    A = np.asarray(bits, bool).reshape(shape)
+    N = A.size
+    idx = np.arange(N).reshape(shape)
+    parent = np.arange(N)
+
+    def find(i):
+        while parent[i] != i:
+            parent[i] = parent[parent[i]]            # path halving
+            i = parent[i]
+        return i
+    for j in np.ndindex(*bshape):
+        if not el[int(np.ravel_multi_index(j, bshape))]:
+            continue
+        k = [a - b // 2 for a, b in zip(j, bshape)]
+        if any(abs(o) >= d for o, d in zip(k, shape)):
+            continue
+        src = tuple(slice(max(0, -o), d - max(0, o)) for o, d in zip(k, shape))
+        dst = tuple(slice(max(0, o), d + min(0, o)) for o, d in zip(k, shape))
+        m = A[src] & A[dst]
+        for a, b in zip(idx[src][m].tolist(), idx[dst][m].tolist()):
+            ra, rb = find(a), find(b)
+            if ra != rb:
+                parent[ra] = rb
+    while True:                                      # all roots at once (pointer jumping)
+        pp = parent[parent]
+        if np.array_equal(pp, parent):
+            break
+        parent = pp
+    fg = np.nonzero(A.ravel())[0]
+    lab = np.zeros(N, np.int64)
+    if not fg.size:
+        return lab, 0
+    u, first, inv = np.unique(parent[fg], return_index=True, return_inverse=True)
+    order = np.argsort(np.argsort(first))                # rank of each root by first appearance in scan order
+    lab[fg] = order[inv] + 1
+    return lab, int(u.size)
+
+
+def _big_image(c):
+    """the images of the size-threshold stream, generated from a few parameters (not stored in the case)"""
+    h, w = c['shape']
+    if c['big'] == 'checker':                  # every other pixel: with the cross, (h*w+1)//2 one-pixel components
+        A = (np.add.outer(np.arange(h), np.arange(w)) % 2 == 0)
+    elif c['big'] == 'solid':                  # one component of h*w - (holes) pixels
+        A = np.ones((h, w), bool)
+        A[c.get('hole', 0) % h, c.get('hole', 0) % w] = False
+    elif c['big'] == 'dominoes':               # two-pixel components `11 0 11 0 …` on every other row: the SECOND pixel of a
+        A = np.zeros((h, w), bool)             # component gets its label from the first-seen map, not from the counter
+        A[::2, 0::3] = True
+        A[::2, 1::3] = True
+    else:                                      # 'rows': every other row is one long component
+        A = np.zeros((h, w), bool)
+        A[::2] = True
+    return A
+
+
+def _eval_big(c):
+    import mahotas as mh
+    A = _big_image(c).astype(c.get('dtype', 'bool'))
+    Bc, bshape, el = _bc_arg(c)
+    want, nwant = _oracle(c['shape'], A != 0, bshape, el)
+    lab, n = mh.label(A, Bc)
+    got = np.asarray(lab).ravel()
+    f = []
+    if got.shape != want.shape or not np.array_equal(got, want) or int(n) != nwant:
+        bad = np.nonzero(got != want)[0][:5].tolist() if got.shape == want.shape else []
+        f.append(dict(kind='property', key='label:size-threshold', detail=dict(n=int(n), nspec=nwant, first_bad=bad,
+                                                                             got=got[bad].tolist(), spec=want[bad].tolist())))
+    return dict(findings=f, nontrivial=True, sig=('big', c['big'], tuple(c['shape']), str(c['bc'])),
+                tags=dict(dtype=c.get('dtype', 'bool'), ndim=2, layout='C', out=False, elem='int', size='threshold',
+                          ncomp=min(int(n), 5)))
+
+
 def _line(shape, bits, bshape, el, mode='constant'):
     return (f"c03 kind=label mode={mode} shape={gen.enc_shape(shape)} data={gen.enc_arr(bits)} "
             f"bshape={gen.enc_shape(bshape)} bc={gen.enc_arr(el)}")
@@ -60,10 +142,25 @@ def _judge(got, n, drv):
         out.append(dict(kind='property', key=key, detail=dict(got=got, n=n, spec=spec, nspec=nspec)))
     if got != model or n != nmodel:
         out.append(dict(kind='model', key='label-model', detail=dict(got=got, n=n, model=model, nmodel=nmodel)))
+    if 'addr' in drv:
+        # round 4: the address-level model (flat deltas into the int32 buffer; C03_addr_model_eq_coord) against the real output
+        addr, naddr = core.ints(drv['addr']), int(drv['naddr'])
+        if (got != addr or n != naddr) and not out:
+            out.append(dict(kind='model', key='label-addr-model', detail=dict(got=got, n=n, addr=addr, naddr=naddr)))
+        if drv.get('oob', '0') != '0':
+            raise core.Infra('C03 driver: the address-level scan reads outside the buffer (refuted by C03_addr_reads_in_bounds): ' + str(drv)[:200])
     return out
 
 
 def _eval_single(cases):
+    import mahotas as mh
+    bigs = {id(c): _eval_big(c) for c in cases if 'big' in c}
+    allc, cases = cases, [c for c in cases if 'big' not in c]
+    small = iter(_eval_small(cases))
+    return [bigs[id(c)] if 'big' in c else next(small) for c in allc]
+
+
+def _eval_small(cases):
     import mahotas as mh
     pre = []
     for c in cases:
@@ -78,7 +175,8 @@ def _eval_single(cases):
         before = Al.copy()
         f = []
         if c.get('out'):
-            out = np.full(A.shape, 7, np.int32)
+            # a dirty caller buffer: union-find sentinels (-1), valid-looking parents, int32 extremes
+            out = np.resize(np.array([7, -1, 0, 2 ** 31 - 1, 1, -2 ** 31, 3], np.int32), A.shape).astype(np.int32)
             lab, n = mh.label(Al, Bc, out=out)
             if lab is not out:
                 f.append(dict(kind='model', key='label:out-not-returned', detail={}))
@@ -88,6 +186,11 @@ def _eval_single(cases):
             f.append(dict(kind='model', key='label:result-type', detail=dict(dtype=str(lab.dtype), shape=lab.shape)))
         got = [int(x) for x in lab.ravel(order='C').tolist()]
         f += _judge(got, int(n), drv)
+        if len(bshape) == len(c['shape']) and A.size:
+            # the Python oracle of the size-threshold stream must agree with the Lean specification on the small cases
+            o = _oracle(c['shape'], bits, bshape, el)
+            if (o[0].tolist(), o[1]) != (core.ints(drv['spec']), int(drv['nspec'])):
+                raise core.Infra('C03: the Python oracle of the size-threshold stream disagrees with the Lean spec on ' + str(c)[:300])
         if not np.array_equal(before, Al, equal_nan=False) and not (before != before).any():
             f.append(dict(kind='property', key='label:input-modified', detail={}))
         nfg = sum(bits)
@@ -218,6 +321,20 @@ def cases(rng, tier):
             out.append(dict(block='elem', shape=[3, 3], elems=[e]))
         for shp in rng.sample(small33, 3):
             out.append(dict(block='elem', shape=shp, elems=sorted(rng.sample(range(512), 40))))
+    # size-threshold stream: component counts / component sizes / pixel counts crossing 2^15, 2^16 (a label, index or
+    # counter narrowed to 16 bits passes every small case); judged with the exact Python oracle `_oracle`
+    big = [dict(big='dominoes', shape=[600, 700], bc=4, dtype='bool'),           # 70 200 two-pixel components (> 65 535)
+           dict(big='checker', shape=[363, 363], bc=4, dtype='bool'),            # 65 885 components (> 65 535)
+           dict(big='checker', shape=[257, 256], bc=rng.choice([4, None]), dtype='uint8'),   # 32 896 components (> 32 767)
+           dict(big='solid', shape=[257, 256], bc=rng.choice([4, 8]), hole=rng.randrange(999), dtype='bool'),   # one component of 65 791 pixels
+           dict(big='rows', shape=[3, 65537], bc=8, dtype='bool'),                 # rows longer than 2^16
+           dict(big='checker', shape=[256, 257], bc=8, dtype='bool')]              # one component, 32 896 pixels, diagonal links only
+    if tier == 'thorough':
+        big += [dict(big='checker', shape=[4097, 4097], bc=4, dtype='bool'),      # 2^24 + 8193 pixels, 8 392 705 components
+                dict(big='dominoes', shape=[1025, 4099], bc=4, dtype='bool')]      # 700 758 two-pixel components
+        out += big
+    elif tier == 'quick':
+        out += [big[0]] + rng.sample(big[1:], 2)
     for _ in range(nrand):
         dtype = rng.choice(DTYPES)
         shape = list(gen.small_shape(rng, maxlen=7))
@@ -230,7 +347,7 @@ def cases(rng, tier):
 
 
 def shrink(case):
-    if 'block' in case:
+    if 'block' in case or 'big' in case:
         return
     shape, data = case['shape'], case['data']
     A = np.array(data, dtype=object).reshape(shape)
